@@ -8,6 +8,7 @@ import SdxProofs.CellOrigin
 import SdxProofs.ValueMap
 import Props.C01
 import Props.C08
+import Props.C07Nulls
 /-!
 # C07 — Any supported table synthesizes; schema, dtypes and value domains preserved
 
